@@ -3,16 +3,53 @@
    destination and records data.server.error; check_case recomputes it with Gen/SelfConnect.v.
    The error text is compared exactly (the model is regenerated from the source literal). *)
 From Coq Require Import List Bool NArith String.
-From MV Require Import Base.Bytes Model.SelfConnectBase Gen.SelfConnect.
+From MV Require Import Base.Bytes Model.SelfConnectBase Gen.SelfConnect Model.ServersUpdate.
 Import ListNotations.
 
 Inductive obs := ObsError (e : option string) | ObsRaised.
 
 Inductive case :=
-| Connect (servers : list server) (connect_host : bytes) (connect_port : N) (connect_transport : transport) (impl : obs).
+| Connect (servers : list server) (connect_host : bytes) (connect_port : N) (connect_transport : transport) (impl : obs)
+(* a history of mode/server option updates on ONE real Proxyserver: per update the inputs (server option,
+   mode list as spec numbers, the servers new instances got, the specs whose start failed) and, observed on
+   the implementation afterwards: Proxyserver.servers in order as (spec, instance number, is_running, transport
+   and listen addresses), the result of Servers.update, and server_connect probes *)
+| Updates (h : list (bool * list N * list (N * server) * list N))
+          (impl : list (list (N * N * bool * server) * bool * list (bytes * N * transport * obs))).
+
+Definition server_eqb (a b : server) : bool :=
+  transport_eqb (mode_transport a) (mode_transport b)
+  && list_eqb (pair_eqb bytes_eqb N.eqb) (listen_addrs a) (listen_addrs b).
+
+Definition table_mk (t : list (N * server)) (spec : N) : server :=
+  match find (fun p => N.eqb (fst p) spec) t with
+  | Some p => snd p
+  | None => {| mode_transport := TCP; listen_addrs := [] |}
+  end.
+
+Definition to_step (x : bool * list N * list (N * server) * list N) : step :=
+  let '(on, modes, t, failing) := x in
+  {| s_server_on := on; s_modes := modes; s_mk := table_mk t; s_fails := fun spec => existsb (N.eqb spec) failing |}.
+
+Definition entry_eqb (e : N * inst) (o : N * N * bool * server) : bool :=
+  let '(spec, id, running, sv) := o in
+  N.eqb (fst e) spec && N.eqb (i_id (snd e)) id && Bool.eqb (i_running (snd e)) running && server_eqb (i_server (snd e)) sv.
+
+Definition obs_ok (m : option string) (o : obs) : bool :=
+  match o with ObsError e => option_eqb String.eqb m e | ObsRaised => false end.
+
+Definition update_ok (res : result) (o : list (N * N * bool * server) * bool * list (bytes * N * transport * obs)) : bool :=
+  let '(reg, ok, probes) := o in
+  Nat.eqb (List.length (r_reg res)) (List.length reg)
+  && forallb (fun p => entry_eqb (fst p) (snd p)) (combine (r_reg res) reg)
+  && Bool.eqb (r_ok res) ok
+  && forallb (fun p => let '(ch, cp, ct, ob) := p in obs_ok (server_connect (servers_of (r_reg res)) ch cp ct) ob) probes.
 
 Definition check_case (c : case) : bool :=
   match c with
+  | Updates h impl =>
+      let rs := run_updates [] 0%N (map to_step h) in
+      Nat.eqb (List.length rs) (List.length impl) && forallb (fun p => update_ok (fst p) (snd p)) (combine rs impl)
   | Connect servers ch cp ct (ObsError e) => option_eqb String.eqb (server_connect servers ch cp ct) e
   | Connect _ _ _ _ ObsRaised => false
   end.
